@@ -898,6 +898,8 @@ def run(ctx):
                            "'data' of a leaf instance = its dictionary without the naming keys .NAME / EDIF.identifier (flatten renews the identifier by design)"]
     if not ok:
         ctx.partial_notes.append("Lean build failed: correspondence not run against a driver")
+    elif ctx.tier == "thorough":
+        lean.leanchecker(ctx, ["Spydr.Xform.Props." + pid])
     if not os.path.exists(os.path.join(lean.LEAN, ".lake", "build", "bin", EXE)):
         return
     if ctx.replay:
@@ -907,7 +909,7 @@ def run(ctx):
     files = sorted(os.path.join(cdir, f) for f in os.listdir(cdir) if f.endswith(".json")) if os.path.isdir(cdir) else []
     run_corpus(ctx, pid, files)
     nshards = 16
-    per = ctx.scale(60, 1200) if pid == "C08" else ctx.scale(60, 1200)
+    per = ctx.scale(250, 7000) if pid == "C08" else ctx.scale(300, 8000)
     budget = ctx.scale(45, 900)
     args = [(pid, ctx.tier, ctx.seed, s, per, budget) for s in range(nshards)]
     shard.run_shards(ctx, shard_worker, args)
